@@ -406,7 +406,7 @@ func RunViaWorker(input string) string {
 			return "GOFATAL worker-died"
 		}
 		return strings.TrimRight(r.s, "\n")
-	case <-time.After(60 * time.Second):
+	case <-time.After(240 * time.Second): // wall clock: generous, the machine may be heavily loaded
 		w.kill()
 		cur = nil
 		return "GOFATAL timeout"
@@ -483,7 +483,7 @@ func RunAll() {
 				} else {
 					emit(i, strings.TrimRight(r.s, "\n"))
 				}
-			case <-time.After(20 * time.Second):
+			case <-time.After(120 * time.Second): // wall clock: generous, the machine may be heavily loaded
 				emit(i, "GOFATAL timeout")
 				alive = false
 			}
